@@ -94,6 +94,11 @@ def c02(chk, tier):
     FF.field_sweep(chk, tier, prefixes=("C02",))
 
 
+FINE = 4194304      # 2^22 lattice units per threshold: S + 1 is "just above" (2.4e-7 relative)
+PRES_FINE = [pres(1800, 4.0, 8.0, S=FINE, J=FINE, gap_rain=FINE + 1, gap_jump=2 * FINE),
+             pres(3600, 8.0, 2.0, S=FINE, J=FINE, gap=2, gap_rain=0, gap_jump=2 * FINE, zone="Africa/Lagos")]
+
+
 def c03(chk, tier):
     q = tier == "quick"
     chk.cov["rule"] = (
@@ -105,6 +110,11 @@ def c03(chk, tier):
                        "IncVals": "<- IncFallAtFast", "S": "4", "J": "4", "Emit": "TRUE"},
                       ["AlgorithmsEqualDefinitions", "KeysUnique"], [], PRES[:2] if q else PRES,
                       CC.KEYS["C03"], cli_every=10 if q else 5, nontrivial=nt_pairs)
+    # values JUST above a threshold (one lattice unit in 2^22): a tolerance-based comparison would drop them
+    CC.replay_emitted(chk, "MCClassify fine lattice: rain{0,S,S+1,5S/4} inc{-1,J,J+1}",
+                      {"N1": "4" if q else "5", "N2": "2", "RainVals": "{0, %d, %d, %d}" % (FINE, FINE + 1, 5 * FINE // 4),
+                       "IncVals": "<- IncFallAtFast", "S": str(FINE), "J": str(FINE), "Emit": "TRUE"},
+                      ["AlgorithmsEqualDefinitions", "KeysUnique"], [], PRES_FINE, CC.KEYS["C03"], nontrivial=nt_pairs)
     CC.code_to_spec(chk, 300 if q else 3000, PRES, prefixes=("C03",))
     FF.field_sweep(chk, tier, prefixes=("C03",))
 
